@@ -56,6 +56,22 @@ def gen_recovery_facts():
                     if isinstance(m, ast.Assign) and ast.unparse(m.targets[0]) == "self._spa_state":
                         return _states_in(m.value)[0]
         return "?"
+    # the retry-exceeded branch: is the state change guarded by "there is a spa"? (a connection attempt abandoned by a reset
+    # still reports its failure after the manager dropped its spa)
+    needs_spa = None
+    for n in ast.walk(he):
+        if isinstance(n, ast.If) and "CONNECTION_PROTOCOL_RETRY_COUNT_EXCEEDED" in ast.unparse(n.test) and "event" in ast.unparse(n.test):
+            body = [b for b in n.body if not (isinstance(b, ast.Expr) and isinstance(b.value, ast.Constant))]
+            if len(body) == 1 and isinstance(body[0], ast.Assign) and ast.unparse(body[0].targets[0]) == "self._spa_state":
+                needs_spa = False
+            elif (len(body) == 1 and isinstance(body[0], ast.If) and not body[0].orelse and ast.unparse(body[0].test) == "self._spa is not None"
+                  and len(body[0].body) == 1 and isinstance(body[0].body[0], ast.Assign) and ast.unparse(body[0].body[0].targets[0]) == "self._spa_state"):
+                needs_spa = True
+            else:
+                raise Untranslatable("_handle_event: retry-exceeded branch is neither a state assignment nor one guarded by `self._spa is not None`")
+            break
+    if needs_spa is None:
+        raise Untranslatable("_handle_event: no retry-exceeded branch")
     # the LOCATING_FINISHED branch: the states from which it moves the manager ([] = from any state)
     fin_guard, found_fin = [], False
     for n in ast.walk(he):
@@ -97,6 +113,7 @@ def gen_recovery_facts():
            f"def stateOnLocatingFinished : String := {T.lstr(target_of('LOCATING_FINISHED'))}",
            f"def stateOnLocatingStarted : String := {T.lstr(target_of('LOCATING_STARTED'))}",
            f"/-- LOCATING_FINISHED moves the manager only from these states ([] = from any state) -/\ndef locatingFinishedGuard : List String := {lst(fin_guard)}",
+           f"/-- the retry-exceeded events change the state only while the manager has a spa -/\ndef retryExceededNeedsSpa : Bool := {'true' if needs_spa else 'false'}",
            f"def pumpCatchesExceptions : Bool := {'true' if survives else 'false'}",
            "end GeckoModel.Generated\n"]
     return "\n".join(out)
